@@ -6,7 +6,10 @@ the constraint loop), rule ids, tier strings, the NUMBER type name, the characte
 digit test: 2 = `ch.isdecimal() and int(ch) != 0` (0b7941a), 1 = membership in a literal ASCII table (80b6126)).
 PINNED (Rep/Pins_Repair.v) : normalised source (ast.unparse, docstrings removed) of _attempt_enum_casefold,
 _attempt_type_coercion, _repair_ast_node, _apply_schema_repairs, repair, RepairLog.add, RepairEntry.to_dict and of the
-three call sites (validate.execute `if fix:`, write.execute lenient repair, cli validate `--fix`).
+three call sites (validate.execute `if fix:`, write.execute lenient repair, cli validate `--fix`), and WHAT SWITCHES REPAIR ON:
+ValidateTool.execute `fix = params.get('fix', False)` / WriteTool.execute `lenient = params.get('lenient', False)` must be
+the only binding of the switch (top-level, from an unmodified `params`), cli `--fix` a plain is_flag option never rebound, and
+every repair() call must sit under `if <switch> ...` (defaults are CONSUMED: repair_*_default; texts pinned).
 Fail closed: any guard / branch / call shape that is not recognised raises TranslateError.
 """
 import ast
@@ -139,6 +142,116 @@ def _float_guards(stmts):
     return guards, mant
 
 
+DYNAMIC_NAMES = {"locals", "vars", "globals", "exec", "eval", "setattr"}
+
+
+def _stores(fn, name):
+    """Every node that (re)binds or deletes the local `name` inside fn (assignment targets of any kind, for/with/except
+    targets, walrus, augmented assignment, nested def/class/import of that name)."""
+    out = []
+    for n in ast.walk(fn):
+        if isinstance(n, ast.Name) and n.id == name and isinstance(n.ctx, (ast.Store, ast.Del)):
+            out.append(n)
+        elif isinstance(n, (ast.FunctionDef, ast.AsyncFunctionDef, ast.ClassDef)) and n is not fn and n.name == name:
+            out.append(n)
+        elif isinstance(n, ast.ExceptHandler) and n.name == name:
+            out.append(n)
+        elif isinstance(n, ast.alias) and (n.asname or n.name.split(".")[0]) == name:
+            out.append(n)
+        elif isinstance(n, (ast.Global, ast.Nonlocal)) and name in n.names:
+            out.append(n)
+        elif isinstance(n, ast.arg) and n.arg == name and n not in (fn.args.args + fn.args.kwonlyargs):
+            pass        # parameter of a nested lambda/def: a different scope
+    return out
+
+
+def _tool_flag(fn, name, key, where):
+    """Parameter handling of a boolean flag of a tool's execute(): `params = self.validate_parameters(kwargs)` is the first
+    statement and the only binding of `params`, `params` is only ever read through params.get(..)/params[..]/`in`,
+    `<name> = params.get('<key>', <bool literal>)` is a top-level statement and the ONLY binding of <name>, and nothing in
+    the function reaches locals by name (locals/vars/exec/eval/setattr).  -> (default as bool, binding source text)"""
+    body = _strip_doc(fn)
+    need(body and ast.unparse(body[0]) == "params = self.validate_parameters(kwargs)",
+         f"{where}: first statement is not `params = self.validate_parameters(kwargs)`")
+    need(fn.args.kwarg is not None and fn.args.kwarg.arg == "kwargs" and not fn.args.args[1:] and not fn.args.kwonlyargs
+         and not fn.args.posonlyargs and fn.args.vararg is None, f"{where}: signature is not (self, **kwargs)")
+    need(len(_stores(fn, "params")) == 1, f"{where}: `params` is bound more than once")
+    need(not _stores(fn, "kwargs"), f"{where}: `kwargs` is rebound")
+    for n in ast.walk(fn):
+        if isinstance(n, ast.Attribute) and isinstance(n.value, ast.Name) and n.value.id in ("params", "kwargs"):
+            need(n.value.id == "params" and n.attr == "get", f"{where}: `{ast.unparse(n)}` (only params.get is understood)")
+        if isinstance(n, ast.Subscript) and isinstance(n.value, ast.Name) and n.value.id in ("params", "kwargs"):
+            need(isinstance(n.ctx, ast.Load), f"{where}: `{ast.unparse(n)}` is written")
+        if isinstance(n, ast.Name) and n.id in DYNAMIC_NAMES:
+            need(False, f"{where}: uses `{n.id}`")
+        if isinstance(n, ast.Call):
+            for a in list(n.args) + [k.value for k in n.keywords]:
+                if isinstance(a, ast.Starred):
+                    a = a.value
+                need(not (isinstance(a, ast.Name) and a.id in ("params", "kwargs")) or ast.unparse(n) == "self.validate_parameters(kwargs)",
+                     f"{where}: `params`/`kwargs` passed on: {ast.unparse(n)[:80]}")
+            for k in n.keywords:
+                need(not (k.arg is None and isinstance(k.value, ast.Name) and k.value.id in ("params", "kwargs")),
+                     f"{where}: `**{ast.unparse(k.value)}` passed on")
+    st = _stores(fn, name)
+    need(len(st) == 1 and isinstance(st[0], ast.Name), f"{where}: `{name}` is bound {len(st)} times (exactly one binding is understood)")
+    binds = [b for b in body if isinstance(b, ast.Assign) and len(b.targets) == 1 and b.targets[0] is st[0]]
+    need(len(binds) == 1, f"{where}: the binding of `{name}` is not a top-level statement of execute()")
+    v = binds[0].value
+    need(isinstance(v, ast.Call) and ast.unparse(v.func) == "params.get" and len(v.args) == 2 and not v.keywords
+         and isinstance(v.args[0], ast.Constant) and v.args[0].value == key
+         and isinstance(v.args[1], ast.Constant) and type(v.args[1].value) is bool,
+         f"{where}: `{ast.unparse(binds[0])}` is not `{name} = params.get('{key}', <bool>)`")
+    return v.args[1].value, ast.unparse(binds[0])
+
+
+def _repair_calls_gated(fn, flag, where):
+    """Every call of repair(..) inside fn sits in the BODY of an `if` whose test is `<flag>` or `<flag> and ...`."""
+    parent = {}
+    for n in ast.walk(fn):
+        for c in ast.iter_child_nodes(n):
+            parent[c] = n
+    calls = [n for n in ast.walk(fn) if isinstance(n, ast.Call) and ast.unparse(n.func) in ("repair", "repair_value", "_apply_schema_repairs")]
+    need(calls, f"{where}: no repair() call found")
+    gates = []
+    for c in calls:
+        need(ast.unparse(c.func) == "repair", f"{where}: calls {ast.unparse(c.func)} directly")
+        cur, ok = c, None
+        while cur in parent:
+            p = parent[cur]
+            if isinstance(p, ast.If) and any(cur is b or _contains(b, cur) for b in p.body):
+                t = p.test
+                first = t.values[0] if isinstance(t, ast.BoolOp) and isinstance(t.op, ast.And) else t
+                if isinstance(first, ast.Name) and first.id == flag:
+                    ok = ast.unparse(t)
+                    break
+            cur = p
+        need(ok is not None, f"{where}: a repair() call is not guarded by `if {flag} ...`")
+        gates.append(ok)
+    return gates
+
+
+def _contains(root, node):
+    return any(n is node for n in ast.walk(root))
+
+
+def _cli_fix_option(fn, where):
+    """`@click.option('--fix', is_flag=True, ...)` without default/flag_value, parameter `fix` never rebound."""
+    opts = [d for d in fn.decorator_list if isinstance(d, ast.Call) and ast.unparse(d.func) == "click.option"
+            and d.args and isinstance(d.args[0], ast.Constant) and d.args[0].value == "--fix"]
+    need(len(opts) == 1, f"{where}: expected exactly one click.option('--fix', ...)")
+    o = opts[0]
+    need(len(o.args) == 1, f"{where}: --fix option has extra declarations")
+    kws = {k.arg: k.value for k in o.keywords}
+    need(set(kws) <= {"is_flag", "help"} and isinstance(kws.get("is_flag"), ast.Constant) and kws["is_flag"].value is True,
+         f"{where}: --fix is not a plain is_flag option: {ast.unparse(o)}")
+    need(any(a.arg == "fix" for a in fn.args.args), f"{where}: no parameter `fix`")
+    need(not _stores(fn, "fix"), f"{where}: parameter `fix` is rebound")
+    for n in ast.walk(fn):
+        need(not (isinstance(n, ast.Name) and n.id in DYNAMIC_NAMES), f"{where}: uses `{getattr(n, 'id', '')}`")
+    return ast.unparse(ast.Call(func=o.func, args=o.args, keywords=[k for k in o.keywords if k.arg != "help"]))
+
+
 def _find_if(fn, test_src):
     hits = [n for n in ast.walk(fn) if isinstance(n, ast.If) and ast.unparse(n.test) == test_src]
     need(len(hits) == 1, f"{fn.name}: expected exactly one `if {test_src}:` block, found {len(hits)}")
@@ -255,6 +368,27 @@ def generate(src):
     pins["src_write_meta_repair_stage"] = ast.unparse(_find_if(wex, "lenient and schema_def is not None and validation_errors"))
     cmod = parse_file(src / "cli" / "main.py")
     pins["src_cli_fix_stage"] = ast.unparse(_find_if(find_def(cmod, "validate"), "fix and validation_errors"))
+    # ---------------- what switches repair ON at each surface -----------------
+    vex = find_def(vmod, "execute", cls="ValidateTool")
+    v_default, v_bind = _tool_flag(vex, "fix", "fix", "ValidateTool.execute")
+    v_gates = _repair_calls_gated(vex, "fix", "ValidateTool.execute")
+    w_default, w_bind = _tool_flag(wex, "lenient", "lenient", "WriteTool.execute")
+    w_gates = _repair_calls_gated(wex, "lenient", "WriteTool.execute")
+    cfn = find_def(cmod, "validate")
+    c_opt = _cli_fix_option(cfn, "cli validate")
+    c_gates = _repair_calls_gated(cfn, "fix", "cli validate")
+    for cls_name, m in (("ValidateTool", vmod), ("WriteTool", wmod)):
+        cs = [n for n in m.body if isinstance(n, ast.ClassDef) and n.name == cls_name]
+        need(len(cs) == 1 and not any(isinstance(b, (ast.FunctionDef, ast.AsyncFunctionDef)) and b.name == "validate_parameters" for b in cs[0].body)
+             and [ast.unparse(b) for b in cs[0].bases] == ["BaseTool"], f"{cls_name}: overrides validate_parameters or has other bases")
+    bmod = parse_file(src / "mcp" / "base_tool.py")
+    pins["src_validate_parameters"] = _src(find_def(bmod, "validate_parameters", cls="BaseTool"))
+    pins["validate_fix_binding"] = v_bind
+    pins["validate_repair_gates"] = "\n".join(v_gates)
+    pins["write_lenient_binding"] = w_bind
+    pins["write_repair_gates"] = "\n".join(w_gates)
+    pins["cli_fix_option"] = c_opt
+    pins["cli_repair_gates"] = "\n".join(c_gates)
     # ---------------- emit -----------------
     out = [HEADER]
     out.append("(* repair_value: ordered guard codes (1 zone, 2 not fix, 3 no field_def, 4 no pattern, 5 no chain, 6 empty chain, 7 None);\n"
@@ -281,6 +415,11 @@ def generate(src):
     out.append(f"Definition repair_mantissa_expr : list N := {coq_str(mant['expr'] if mant else '')}.\n")
     out.append(f"Definition repair_underflow_guard_test : list N := {coq_str(mant['test'] if mant else '')}.\n")
     out.append(f"Definition repair_caught : list (list N) := {coq_list([coq_str(c) for c in caught], '(list N)')}.\n")
+    out.append("(* value of the switch when the caller OMITS it (1 = on): octave_validate `fix`, octave_write `lenient`, cli `--fix`;\n"
+               "   extracted together with the facts that it is the only binding of the switch and that every repair() call is gated by it *)\n")
+    out.append(f"Definition repair_validate_fix_default : N := {1 if v_default else 0}.\n")
+    out.append(f"Definition repair_write_lenient_default : N := {1 if w_default else 0}.\n")
+    out.append("Definition repair_cli_fix_default : N := 0.\n")
     for k, v in pins.items():
         out.append(f"Definition repair_{k} : list N := {coq_str(v)}.\n")
     return {"RepairGen.v": "".join(out)}
